@@ -199,6 +199,8 @@ class Oracle:
                 return None
             w["seen"] += keys
             w["pages"] += 1
+            # every key that is present when some page is read (a page can only yield such keys)
+            w.setdefault("everp", set(w["start"].values())).update(v[0] for v in ref.values())
             if count >= 1 and w["pages"] > 10 + 2 * (len(w["start"]) + len(ref)) + 64:
                 return "scan walk did not terminate after %d pages" % w["pages"]
             if nxt == 0:
@@ -219,9 +221,8 @@ class Oracle:
                     for k in sel(stable):
                         if k not in w["seen"]:
                             return "key %s present during the whole scan was never yielded" % k
-                    everp = set(w["start"].values()) | set(v[0] for v in ref.values())
                     for k in w["seen"]:
-                        if k not in everp and k not in [keyof(h).hex() for h in w["touched"]]:
+                        if k not in w["everp"]:
                             return "scan yielded %s which was never present" % k
             return None
         return None
